@@ -227,6 +227,32 @@ pub fn cases(f: &mut dyn FnMut(Value) -> bool) {
             }
         }
     }
+    // ---- S4z: the same with zero-sized cells
+    for (c, r) in shapes(3) {
+        for k in 0..=c * r {
+            if !f(json!({"scenario": "zdrop", "op": "clear", "shape": [c, r], "k": k})) {
+                return;
+            }
+        }
+        for op in ["remove_col", "pop_col", "remove_row", "pop_row"] {
+            let (n_lines, line_len) = if op.ends_with("col") { (c, r) } else { (r, c) };
+            if n_lines == 0 {
+                continue;
+            }
+            let idxs: Vec<usize> = if op.starts_with("pop") { vec![0] } else { (0..n_lines).collect() };
+            for i in idxs {
+                for front in 0..=line_len {
+                    for back in 0..=line_len - front {
+                        for k in 0..=line_len - front - back {
+                            if !f(json!({"scenario": "zdrop", "op": op, "shape": [c, r], "index": i, "front": front, "back": back, "k": k})) {
+                                return;
+                            }
+                        }
+                    }
+                }
+            }
+        }
+    }
     // ---- S5: comparator / key function panics
     let mut sort_ts: Vec<Target> = shapes(4).into_iter().map(Target::owned).collect();
     sort_ts.push(Target::win((5, 5), [1, 1, 4, 4]));
@@ -513,6 +539,48 @@ pub fn run(case: &Value) -> Res {
             });
             tok::disarm();
             post_check(op, t, true)
+        }
+        "zdrop" => {
+            use crate::fam_insrem::{zst_array, zst_post_check, zst_reset, zst_set_drop_panic};
+            let (c, r) = (ju(&case["shape"][0]), ju(&case["shape"][1]));
+            let op = js(&case["op"]);
+            let k = ju(&case["k"]);
+            zst_reset();
+            let mut t = zst_array(c, r);
+            if op == "clear" {
+                zst_set_drop_panic(Some(k));
+                let _ = catch(|| t.clear());
+                return zst_post_check("zero-sized cells: clear with a panicking destructor", t);
+            }
+            let index = ju(&case["index"]);
+            let (front, back) = (ju(&case["front"]), ju(&case["back"]));
+            let _ = catch(|| {
+                macro_rules! consume {
+                    ($d:expr) => {{
+                        let mut d = $d;
+                        let mut taken = Vec::new();
+                        for _ in 0..front {
+                            taken.push(d.next());
+                        }
+                        for _ in 0..back {
+                            taken.push(d.next_back());
+                        }
+                        zst_set_drop_panic(Some(k));
+                        drop(d);
+                        zst_set_drop_panic(None);
+                        drop(taken);
+                    }};
+                }
+                match op {
+                    "remove_col" => consume!(t.remove_col(index)),
+                    "pop_col" => consume!(t.pop_col().unwrap()),
+                    "remove_row" => consume!(t.remove_row(index)),
+                    "pop_row" => consume!(t.pop_row().unwrap()),
+                    _ => panic!("unknown op {}", op),
+                }
+            });
+            zst_set_drop_panic(None);
+            zst_post_check(&format!("zero-sized cells: {} whose drain is dropped with a panicking destructor", op), t)
         }
         "sort" => run_sort(case),
         s => panic!("unknown scenario {}", s),
